@@ -30,7 +30,12 @@ THEOREMS_BY_PROP = {
             "DepLogic.C14.spec_and_assoc_mem", "DepLogic.C14.spec_and_idem_mem", "DepLogic.C14.spec_or_comm_mem",
             "DepLogic.C14.spec_or_idem_mem", "DepLogic.C14.spec_absorb_mem", "DepLogic.C14.spec_distrib_mem",
             "DepLogic.C14.spec_invert_involution_mem", "DepLogic.C14.spec_de_morgan_and_mem",
-            "DepLogic.C14.spec_complement_mem"],
+            "DepLogic.C14.spec_complement_mem",
+            "DepLogic.C14.obj_and_comm", "DepLogic.C14.obj_and_assoc", "DepLogic.C14.obj_and_idem", "DepLogic.C14.obj_or_comm",
+            "DepLogic.C14.obj_or_assoc", "DepLogic.C14.obj_or_idem", "DepLogic.C14.obj_absorb_and_or",
+            "DepLogic.C14.obj_absorb_or_and", "DepLogic.C14.obj_and_or_distrib", "DepLogic.C14.obj_or_and_distrib",
+            "DepLogic.C14.obj_invert_involution", "DepLogic.C14.obj_de_morgan_and", "DepLogic.C14.obj_de_morgan_or",
+            "DepLogic.C14.obj_complement", "DepLogic.Spec.canon_unique"],
     "C10": ["DepLogic.C10.call_ok", "DepLogic.C10.history_transparent", "DepLogic.C10.probe_independent",
             "DepLogic.C10.not_transparent_without_wf"]}
 THEOREMS: list[str] = []
